@@ -136,3 +136,8 @@ func compsOf(idx []int) []ecs.Comp {
 	}
 	return out
 }
+
+// APIHits counts calls per generated ark type and method (evidence for C14).
+var APIHits = map[string]int{}
+
+func hit(key string) { APIHits[key]++ }
